@@ -133,7 +133,8 @@ def build_driver():
 
 
 def audit_sources():
-    """grep the whole development for forbidden vernacular; returns list of findings"""
+    """grep the whole development for forbidden vernacular; Variable/Hypothesis/Context are accepted only inside a Section.
+    returns list of findings"""
     bad = []
     for dp, dn, fn in os.walk(COQ):
         for f in fn:
@@ -142,11 +143,20 @@ def audit_sources():
             rel = os.path.relpath(os.path.join(dp, f), COQ)
             text = open(os.path.join(dp, f), encoding="utf-8").read()
             text = re.sub(r"\(\*.*?\*\)", "", text, flags=re.S)
-            for m in FORBIDDEN.finditer(text):
-                w = m.group(0)
-                if w.split()[0] in ("Variable", "Variables", "Hypothesis", "Hypotheses") and rel in SECTION_VARIABLE_FILES:
+            depth = 0
+            for sent in re.split(r"(?<=\.)\s", text):
+                st = sent.strip()
+                if re.match(r"Section\s+\w+\s*\.$", st):
+                    depth += 1
                     continue
-                bad.append("%s: %s" % (rel, w))
+                if re.match(r"End\s+\w+\s*\.$", st) and depth > 0:
+                    depth -= 1
+                    continue
+                for m in FORBIDDEN.finditer(st):
+                    w = m.group(0)
+                    if w.split()[0] in ("Variable", "Variables", "Hypothesis", "Hypotheses") and depth > 0:
+                        continue
+                    bad.append("%s: %s" % (rel, w))
     return bad
 
 
